@@ -352,13 +352,27 @@ func main() {
 	conc := flag.Int("conc", 8, "concurrent callers sharing the proxy")
 	pool := flag.Int("pool", 0, "server maxroutine")
 	out := flag.String("out", "trace.ndjson", "output")
+	mode := flag.String("mode", "calls", "calls | serve (child: run a server until killed) | hostile (parent: hostile packets against children)")
+	proto := flag.String("proto", "tcp", "serve mode: tcp|udp")
+	portFlag := flag.Int("port", 0, "serve mode: port")
+	nHostile := flag.Int("hostile", 600, "hostile mode: inputs per entry point")
 	flag.Parse()
+	if *mode == "hostile" {
+		if err := hostileMain(*seed, *nHostile, *out); err != nil {
+			fmt.Fprintln(os.Stderr, "calldrive hostile:", err)
+			os.Exit(3)
+		}
+		os.Exit(0)
+	}
 	if os.Getenv("VERIF_LOG") == "" {
 		rogger.SetLevel(rogger.OFF)
 	}
 	ln, _ := net.Listen("tcp", "127.0.0.1:0")
 	port := ln.Addr().(*net.TCPAddr).Port
 	ln.Close()
+	if *portFlag != 0 {
+		port = *portFlag
+	}
 	dir, _ := os.MkdirTemp("", "calldrive")
 	defer os.RemoveAll(dir)
 	obj := "Verif.CallSrv.CallObj"
@@ -371,7 +385,7 @@ func main() {
       logLevel=ERROR
       maxroutine=%d
       <Verif.CallSrv.CallObjAdapter>
-        endpoint=tcp -h 127.0.0.1 -p %d -t 60000
+        endpoint=%s -h 127.0.0.1 -p %d -t 60000
         servant=%s
         protocol=tars
         threads=4
@@ -383,7 +397,7 @@ func main() {
     </client>
   </application>
 </tars>
-`, *pool, port, obj)
+`, *pool, *proto, port, obj)
 	cpath := filepath.Join(dir, "srv.conf")
 	os.WriteFile(cpath, []byte(cfg), 0644)
 	tars.ServerConfigPath = cpath
@@ -416,6 +430,10 @@ func main() {
 	app := new(Vc.Call)
 	app.AddServantWithContext(&impl{seed: *seed}, obj)
 	go tars.Run()
+	if *mode == "serve" {
+		fmt.Println("serving", port)
+		select {} // until killed (or until a packet kills it)
+	}
 	// wait for the listener
 	for i := 0; i < 200; i++ {
 		if c, err := net.DialTimeout("tcp", fmt.Sprintf("127.0.0.1:%d", port), 100*time.Millisecond); err == nil {
